@@ -489,7 +489,6 @@ func (w *streamingResponseWriter) WriteHeader(status int) {
 			header.Add(k, v)
 		}
 	}
-	w.header = header
 
 	// Take the protocol version information for the response from the corresponding request.
 	proto := "HTTP/1.1"
@@ -506,9 +505,12 @@ func (w *streamingResponseWriter) WriteHeader(status int) {
 		ProtoMinor: protoMinor,
 		StatusCode: status,
 		Status:     http.StatusText(status),
-		Header:     w.header,
-		Body:       w.bodyReader,
-		Trailer:    w.trailer,
+		// The streamed response gets its own copy of the header: the handler keeps
+		// using (and may keep modifying) the map returned by Header(), e.g. to set
+		// trailers, while the response is being serialized in another goroutine.
+		Header:  header,
+		Body:    w.bodyReader,
+		Trailer: w.trailer,
 	}
 	select {
 	case w.respChan <- resp:
